@@ -458,7 +458,16 @@ pub fn run(plan: &Plan, sp: &StatusPlan) -> FamOut {
                 match r {
                     Err(pm) => violate("panic", format!("panic/in={}", name), pm),
                     Ok(res) => {
-                        if known_before {
+                        // the kernel's truth: is the very child this Popen started still there, un-reaped and running?
+                        let child_alive = st.child().map(|c| c.pid == pid && c.reaped_by.is_none() && c.exit_at.is_none()).unwrap_or(false);
+                        if known_before && child_alive {
+                            // whatever the library believes it has observed: the child has neither ended
+                            // nor been reaped, so the signal must reach it
+                            let ok = kills.len() == 1 && kills[0].pid == pid && kills[0].sig == want_sig;
+                            if !ok {
+                                violate("signal_wrong", format!("signal_wrong/by={}/not_sent_to_live_child", name), format!("{}(): the child (pid {}) is alive and un-reaped, yet the calls made were {:?}", name, pid, kills.iter().map(|k| (k.pid, k.sig)).collect::<Vec<_>>()));
+                            }
+                        } else if known_before {
                             if !kills.is_empty() || res.is_err() {
                                 let tgt = kills.first().map(|k| format!("{:?}", k.target)).unwrap_or_default();
                                 violate("signal_after_observed", format!("signal_after_observed/by={}/kills={}/target={}", name, kills.len().min(2), tgt.split('(').next().unwrap_or("")), format!("{}() after the final status was known: {} kill call(s) {:?}, result {:?}", name, kills.len(), kills.iter().map(|k| (k.pid, k.sig)).collect::<Vec<_>>(), res));
